@@ -356,6 +356,93 @@ func runC15(c *Ctx) {
 	} else {
 		r.Unresolve("C15.3", "discoverychain.(*compiler).compile", "not found")
 	}
+	// the cycle detector schedules EVERY outgoing edge of every router and splitter it visits: a node
+	// may legitimately be reached twice (that is what a cycle off the start node looks like)
+	if df := p.Func(dcPkg, "(*compiler).detectCircularReferences"); df != nil {
+		isPush := func(in ssa.Instruction) bool {
+			ci, ok := in.(ssa.CallInstruction)
+			if !ok {
+				return false
+			}
+			g := ci.Common().StaticCallee()
+			return g != nil && g.Name() == "Push" && g.Signature.Recv() != nil
+		}
+		// mustPush: every return of g is preceded by a Push
+		mustPush := func(g *ssa.Function) bool {
+			if g == nil || g.Blocks == nil {
+				return false
+			}
+			mf := &core.MustFlow{F: g, Gen: func(in ssa.Instruction) []string {
+				if isPush(in) {
+					return []string{"pushed"}
+				}
+				return nil
+			}}
+			mf.Run()
+			for _, rt := range core.Returns(g) {
+				if s, ok := mf.At(rt); ok && !s["pushed"] {
+					return false
+				}
+			}
+			return true
+		}
+		nLoops := 0
+		for _, b := range df.Blocks {
+			for _, in := range b.Instrs {
+				ia, ok := in.(*ssa.IndexAddr)
+				if !ok {
+					continue
+				}
+				lf := core.AccessOf(ia.X).LastField()
+				if lf != "Routes" && lf != "Splits" {
+					continue
+				}
+				hb := loopHeaderOf(b)
+				if hb == nil {
+					continue
+				}
+				nLoops++
+				mf := &core.MustFlow{F: df, Start: in, Gen: func(x ssa.Instruction) []string {
+					if isPush(x) {
+						return []string{"pushed"}
+					}
+					if ci, ok := x.(ssa.CallInstruction); ok {
+						// a local helper (closure) that pushes on all of its paths
+						var g *ssa.Function
+						if mc, ok := ci.Common().Value.(*ssa.MakeClosure); ok {
+							g, _ = mc.Fn.(*ssa.Function)
+						} else {
+							g = ci.Common().StaticCallee()
+							if g == nil {
+								// a closure held in a local variable
+								for _, leaf := range core.Leaves(ci.Common().Value, core.SliceOpts{}) {
+									if mc, ok := leaf.(*ssa.MakeClosure); ok {
+										g, _ = mc.Fn.(*ssa.Function)
+									}
+								}
+							}
+						}
+						if g != nil && g.Pkg == df.Pkg && mustPush(g) {
+							return []string{"pushed"}
+						}
+					}
+					return nil
+				}}
+				mf.Run()
+				construct := core.FuncName(df) + "/" + lf
+				if s, ok := mf.At(hb.Instrs[0]); ok && s["pushed"] {
+					r.Hold("C15.3", construct, p.Pos(in.Pos()), "every "+strings.ToLower(strings.TrimSuffix(lf, "s"))+"'s next node is scheduled")
+				} else {
+					r.Violate("C15.3", construct, p.Pos(in.Pos()), "an outgoing edge of a "+strings.ToLower(strings.TrimSuffix(lf, "s"))+" can be left unscheduled (it is pushed only under a condition, e.g. 'not queued before'): a cycle that does not pass through the chain's start node is then never walked twice and goes undetected, and flattening the cyclic splitters afterwards does not terminate")
+				}
+			}
+		}
+		if nLoops < 2 {
+			r.MissingInstance("C15.3", core.FuncName(df)+"/edges", fmt.Sprintf("only %d edge loops found in the cycle detector", nLoops))
+		}
+	} else {
+		r.Unresolve("C15.3", "discoverychain.(*compiler).detectCircularReferences", "not found")
+	}
 
 	// ---- C15.4 map ranges in the chain compiler (everything reachable from Compile; the API-gateway
 	// synthesiser in the same package builds on compiled chains and is outside the property's scope)
